@@ -244,6 +244,56 @@ pub fn run(thorough: bool, seed: u64, driver: &str, rep: &mut Report) {
         let _ = std::fs::remove_dir_all(&out_dir);
         for f in files.iter() { let _ = std::fs::remove_file(f); }
     }
+    // ---- `generate`: the trees the command prints (or writes, one file per tree with -n/-o) satisfy what the generators promise
+    // (this is the UNGUARDED binary: thread_rng(), not the seeded hook) ----
+    for gi in 0..(if thorough { 120 } else { 18 }) {
+        let n = rng.range(2, 40);
+        let shape = ["yule", "ete3", "caterpillar"][gi % 3];
+        let distr = ["uniform", "exponential", "gamma"][(gi / 3) % 3];
+        let brlens = gi % 2 == 0;
+        let multi = gi % 6 == 5;
+        let mut args: Vec<String> = vec!["generate".into(), "-t".into(), n.to_string(), "-s".into(), shape.into(), "-d".into(), distr.into()];
+        if brlens {
+            args.push("-b".into());
+        }
+        let out_dir = format!("{dir}/gen{gi}");
+        if multi {
+            args.extend(["-n".to_string(), "3".to_string(), "-o".to_string(), out_dir.clone()]);
+        }
+        let a: Vec<&str> = args.iter().map(|x| x.as_str()).collect();
+        let r = run_cli(&a);
+        rep.count("runs:generate");
+        let ctx = format!("phylotree {}", args.join(" "));
+        rep.case(&ctx, true);
+        let texts: Vec<String> = if multi {
+            (1..=3).map(|i| std::fs::read_to_string(format!("{out_dir}/{i}_{n}_tips.nwk")).unwrap_or_else(|_| "<missing>".into())).collect()
+        } else {
+            vec![r.stdout.clone()]
+        };
+        if r.code != Some(0) {
+            rep.oracle("generate", "error-exit", &ctx, &format!("exit {:?} {}", r.code, r.stdout));
+            continue;
+        }
+        for text in texts {
+            match Tree::from_newick(text.trim_end()) {
+                Err(_) => rep.oracle("generate", "output-not-parseable", &ctx, &text),
+                Ok(g) => {
+                    let slots = slots_of(&g);
+                    let tips: Vec<&phylotree::verif::RawSlot> = slots.iter().filter(|s| s.children.is_empty()).collect();
+                    let mut names: Vec<String> = tips.iter().filter_map(|s| s.name.clone()).collect();
+                    names.sort();
+                    names.dedup();
+                    let lens_ok = slots.iter().all(|s| s.parent.is_none() || (s.parent_edge.is_some() == brlens && s.parent_edge.map_or(true, |l| l >= 0.0 && l.is_finite() && (distr != "uniform" || (0.002..1.0).contains(&l)))));
+                    let ok = slots.len() == 2 * n - 1 && tips.len() == n && names.len() == n && g.is_binary().unwrap_or(false) && g.is_rooted().unwrap_or(false) && lens_ok
+                        && (shape != "caterpillar" || g.colless().ok() == Some((n - 1) * (n - 2) / 2));
+                    if !ok {
+                        rep.oracle("generate", "not-a-valid-tree-of-the-requested-size", &ctx, &text);
+                    }
+                }
+            }
+        }
+        let _ = std::fs::remove_dir_all(&out_dir);
+    }
     let n_trees = if thorough { 600 } else { 60 };
     for ti in 0..n_trees {
         let size = rng.range(2, 30);
@@ -476,6 +526,29 @@ pub fn run(thorough: bool, seed: u64, driver: &str, rep: &mut Report) {
                 Some(g) => {
                     if g.canon() != want.canon() {
                         rep.oracle("collapse", "not-only-short-branches-zeroed", &ctx, &format!("{}expected {}", r.stdout, want.newick()));
+                    }
+                }
+            }
+            // `--verbose` ("print the number of collapsed branches at the end") changes only what it documents: the tree on
+            // standard output is the same, and the last line of standard error is the number of branches set to zero
+            if ti % 2 == 1 && r.code == Some(0) {
+                let mut av: Vec<&str> = a.clone();
+                av.push("-v");
+                let o = Command::new(bin()).args(&av).output();
+                rep.count("runs:collapse-verbose");
+                match o {
+                    Err(_) => {}
+                    Ok(o) => {
+                        let out = String::from_utf8_lossy(&o.stdout).to_string();
+                        let err = String::from_utf8_lossy(&o.stderr).to_string();
+                        let mut zeroed = 0usize;
+                        t.for_each(&mut |x, root| if !root && !(excl && x.kids.is_empty()) { if let Some(l) = x.len { if l < thr { zeroed += 1; } } });
+                        if o.status.code() != Some(0) || out != r.stdout {
+                            rep.oracle("collapse", "verbose-changes-the-output", &format!("{ctx} -v"), &format!("exit {:?}\n{out}without -v:\n{}", o.status.code(), r.stdout));
+                        }
+                        if err.lines().last().map(|l| l.trim().to_string()) != Some(zeroed.to_string()) {
+                            rep.oracle("collapse", "verbose-count", &format!("{ctx} -v"), &format!("last line of stderr {:?}, {zeroed} branches are below the threshold", err.lines().last()));
+                        }
                     }
                 }
             }
